@@ -74,37 +74,25 @@ func vC01tree(root *vXElem, o vDecOpts, doc string) {
 
 // default options, sibling structure: interleaved repeated names (a,b,a), text before children
 func H_C01_decode() {
-	ts := vTreeSpec{depth: 1, maxKids: 3, maxAttrs: 0, nameAlpha: "ab", attrAlpha: "ab", textAlpha: "x ", textMax: 1}
-	if vTier() == 1 {
-		ts = vTreeSpec{depth: 1, maxKids: 4, maxAttrs: 1, nameAlpha: "ab", attrAlpha: "ab", textAlpha: "x <", textMax: 1}
-	}
+	ts := vTreeSpec{depth: 1, maxKids: vP("kids", 3, 4), maxAttrs: vP("attrs", 0, 1), nameAlpha: "ab", attrAlpha: "ab", textAlpha: []string{"x ", "x <"}[vP("rich", 0, 1)], textMax: 1}
 	vC01(ts, vDecOpts{attrPrefix: "-", textKey: "#text"}, false)
 }
 
 // default options: value syntax - entity references, CDATA, white space, attribute values
 func H_C01_decode_values() {
-	ts := vTreeSpec{depth: 0, maxAttrs: 1, nameAlpha: "a", attrAlpha: "b", textAlpha: "x <&\n\"'", textMax: 2, cdata: true}
-	if vTier() == 1 {
-		ts = vTreeSpec{depth: 1, maxKids: 1, maxAttrs: 1, nameAlpha: "a", attrAlpha: "b", textAlpha: "x <&\n\"'>", textMax: 2, cdata: true}
-	}
+	ts := vTreeSpec{depth: vP("depth", 0, 1), maxKids: vP("kids", 0, 1), maxAttrs: 1, nameAlpha: "a", attrAlpha: "b", textAlpha: []string{"x <&\n\"'", "x <&\n\"'>"}[vP("rich", 0, 1)], textMax: vP("text", 2, 2), cdata: true}
 	vC01(ts, vDecOpts{attrPrefix: "-", textKey: "#text", escape: vNondetBool()}, false)
 }
 
 // default options: attributes, namespaces, comments, PIs, prolog
 func H_C01_decode_rich() {
-	ts := vTreeSpec{depth: 1, maxKids: 1, maxAttrs: 2, nameAlpha: "ab", attrAlpha: "ab", textAlpha: "x", textMax: 1, valMin: 1, ignorable: true, prefixes: true}
-	if vTier() == 1 {
-		ts = vTreeSpec{depth: 1, maxKids: 2, maxAttrs: 2, nameAlpha: "ab", attrAlpha: "ab", textAlpha: "x", textMax: 1, valMin: 1, ignorable: true, prefixes: true}
-	}
+	ts := vTreeSpec{depth: 1, maxKids: vP("kids", 1, 2), maxAttrs: vP("attrs", 2, 2), nameAlpha: "ab", attrAlpha: "ab", textAlpha: "x", textMax: 1, valMin: 1, ignorable: true, prefixes: true}
 	vC01(ts, vDecOpts{attrPrefix: "-", textKey: "#text"}, true)
 }
 
 // default options, nested documents
 func H_C01_decode_nested() {
-	ts := vTreeSpec{depth: 2, maxKids: 2, maxAttrs: 0, nameAlpha: "ab", attrAlpha: "ab", textAlpha: "x", textMax: 1}
-	if vTier() == 1 {
-		ts = vTreeSpec{depth: 3, maxKids: 2, maxAttrs: 0, nameAlpha: "ab", attrAlpha: "ab", textAlpha: "x", textMax: 1}
-	}
+	ts := vTreeSpec{depth: vP("depth", 2, 3), maxKids: vP("kids", 2, 2), maxAttrs: vP("attrs", 0, 0), nameAlpha: "ab", attrAlpha: "ab", textAlpha: "x", textMax: 1}
 	vC01(ts, vDecOpts{attrPrefix: "-", textKey: "#text"}, false)
 }
 
@@ -118,8 +106,8 @@ func H_C01_decode_opts() {
 	o.keepSpaces = vNondetBool()
 	o.seq = vNondetBool()
 	o.escape = vNondetBool()
-	if vTier() == 1 {
-		ts := vTreeSpec{depth: 1, maxKids: 2, maxAttrs: 1, nameAlpha: "aA", attrAlpha: "bB", textAlpha: "x &", textMax: 1, suffixes: []string{"-c"}}
+	if vP("trees", 0, 1) == 1 {
+		ts := vTreeSpec{depth: 1, maxKids: vP("kids", 2, 2), maxAttrs: vP("attrs", 1, 1), nameAlpha: "aA", attrAlpha: "bB", textAlpha: "x &", textMax: 1, suffixes: []string{"-c"}}
 		vC01(ts, o, false)
 		return
 	}
